@@ -82,6 +82,7 @@ type Result struct {
 }
 
 type Sched struct {
+	holdSkip int
 	holdArmed map[int]bool
 	held      map[int]bool
 	holdDone  bool
@@ -119,6 +120,9 @@ func newSched(cfg Config) *Sched {
 		cfg.MaxSteps = 20000
 	}
 	s := &Sched{cfg: cfg, parked: make(chan struct{}), rng: rand.New(rand.NewSource(cfg.Seed)), reg: newRegistry()}
+	if len(cfg.Hold) >= 3 {
+		s.holdSkip, _ = strconv.Atoi(cfg.Hold[2])
+	}
 	if cfg.Strategy == "pct" {
 		s.prio = map[int]int{}
 		s.changeAt = map[int]bool{}
@@ -355,7 +359,11 @@ func Run(cfg Config, main func()) *Result {
 			s.ticks++
 			s.now += int64(t.d)
 			t.C <- Time{ns: s.now}
-			s.logRaw("T", "tick", fmt.Sprintf("%s %d", t.name, s.now))
+			kind := "tick"
+			if len(en) == 0 {
+				kind = "qtick" // nobody could run: the system was at rest when time passed
+			}
+			s.logRaw("T", kind, fmt.Sprintf("%s %d", t.name, s.now))
 			continue
 		}
 		g := s.gs[c]
@@ -541,8 +549,12 @@ func (s *Sched) log(site int, obj, op, arg, res string) {
 	}
 	line := "E " + strconv.Itoa(gid) + " " + esc(fn) + " " + esc(obj) + " " + esc(op) + " " + esc(arg) + " " + esc(res)
 	s.trace = append(s.trace, line)
-	if len(s.cfg.Hold) == 2 && !s.holdDone && gid >= 0 {
-		if s.holdArmed[gid] && strings.Contains(line, s.cfg.Hold[1]) {
+	if len(s.cfg.Hold) >= 2 && !s.holdDone && gid >= 0 {
+		if s.holdArmed[gid] && strings.Contains(line, s.cfg.Hold[1]) && s.holdSkip > 0 {
+			// not yet: the n-th occurrence is wanted
+			s.holdSkip--
+			s.holdArmed[gid] = false
+		} else if s.holdArmed[gid] && strings.Contains(line, s.cfg.Hold[1]) {
 			if s.held == nil {
 				s.held = map[int]bool{}
 			}
